@@ -642,7 +642,10 @@ static bool exact_instance(vh::Trace& tr, const Sys& s, vh::Rng& rng, long i, co
   // efficiency scale clause (no prior): bin efficiencies times 2^-j (normalisation factors 2^j), image, additive term and upper
   // bound times 2^j, data unchanged - the mean of the data is unchanged, the same sub-iteration on a fresh object
   if (scaling == 2) {
-    static const int js[] = { 1, -1, 2, -3, 10, -10, 20, -20, 30, -30, 40, -40 };
+    // j >= -6: the quotient clamp of divide_and_truncate (10^4) is applied to y/(P lambda + a) and (P 1)/(y norm^2), i.e. WITHOUT
+    // the efficiencies, so it is not invariant: with y/(P lambda + a) <= 4 and (P 1)/y <= 1 on these instances the scaled
+    // quotients 4 * 2^-j and 2^-2j stay below it for j >= -6 (the threshold-free domain named in OSSPS.tla)
+    static const int js[] = { 1, -1, 2, -3, -5, -6, 10, 20, 25, 30, 35, 40 };
     const int j = js[rng.range(0, 11)];
     Cfg c2 = c;
     c2.id = c.id + 2000000;
